@@ -2686,7 +2686,10 @@ fn generate_constraints_expr(
             }
         }
         ExprKind::TaskBlock(block) => {
+            // a loop around the task is not a loop the task body can break out of
+            ctx.loop_stack.push(None);
             generate_constraints_expr(ctx, polyvar_scope, Mode::Syn, block);
+            ctx.loop_stack.pop();
             constrain(
                 ctx,
                 &node_ty,
@@ -3606,6 +3609,8 @@ fn generate_constraints_func_def_helper(
 
     // body
     ctx.func_ret_stack.push(Prov::FuncOut(node.clone()));
+    // a loop around the function is not a loop the function body can break out of
+    ctx.loop_stack.push(None);
     let ty_body = TypeVar::fresh(ctx, Prov::FuncOut(node.clone()));
     if let Some(out_annot) = out_annot {
         let out_annot = out_annot.to_typevar(ctx);
@@ -3616,6 +3621,7 @@ fn generate_constraints_func_def_helper(
     } else {
         generate_constraints_expr(ctx, &polyvar_scope, Mode::ana(&ty_body), body);
     }
+    ctx.loop_stack.pop();
     ctx.func_ret_stack.pop();
 
     TypeVar::make_func(ty_args, ty_body, Reason::Node(node.clone()))
